@@ -56,7 +56,9 @@ type opKind string
 
 // ROW / TXROW read the worker's own counter row through Row() (outside / inside a transaction, there
 // after an increment of its own: the transaction must read its own write)
-var opKinds = []opKind{"QA", "QB", "FIND", "EXEC", "TXQA", "TXEXEC", "QA", "QB", "ROW", "TXROW"}
+// QAERR executes the text of QA with one argument too many: a failure private to the caller (the statement
+// itself is fine), which must neither cost the other users of that text their statement nor a new preparation.
+var opKinds = []opKind{"QA", "QB", "FIND", "EXEC", "TXQA", "TXEXEC", "QA", "QB", "ROW", "TXROW", "QAERR"}
 
 type opResult struct {
 	op          opKind
@@ -182,6 +184,8 @@ func (w *world) runOp(worker int, op opKind) opResult {
 		r.err = db.Raw(textA, 1).Scan(&r.val).Error
 	case "QB":
 		r.err = db.Raw(textB, 2).Scan(&r.val).Error
+	case "QAERR":
+		r.err = db.Raw(textA, 1, 2).Scan(&r.val).Error
 	case "FIND":
 		var p PS
 		res := db.First(&p, 2)
@@ -432,6 +436,18 @@ func execute(c *core.Ctx, sc scenario, r *core.Rand, forced []int) outcome {
 		incs, certain := int64(0), true // the worker's own successful increments so far
 		for _, r := range rs {
 			wantV, wantN := expected(r.op)
+			if r.op == "QAERR" {
+				var pe *errPrepare
+				if r.err == nil {
+					out.problems = append(out.problems, fmt.Sprintf("w%d QAERR (one argument too many) returned no error", i+1))
+				} else if !strings.Contains(r.err.Error(), "arguments") && !errors.As(r.err, &pe) && !errors.Is(r.err, driver.ErrBadConn) && !(r.closeAfter && cleanAfterClose.MatchString(r.err.Error())) && !strings.Contains(r.err.Error(), "statement is closed") {
+					out.problems = append(out.problems, fmt.Sprintf("w%d QAERR returned %q, non-prepared mode reports the argument count", i+1, r.err))
+				}
+				if r.err != nil && strings.Contains(r.err.Error(), "statement is closed") && !(r.closeAfter && cleanAfterClose.MatchString(r.err.Error())) {
+					out.problems = append(out.problems, fmt.Sprintf("w%d %s returned %q (Close issued before it returned: %v, Reset count during it: %d)", i+1, r.op, r.err, r.closeAfter, r.resetsAt[1]))
+				}
+				continue
+			}
 			if r.err == nil {
 				if r.val != wantV || r.rows != wantN {
 					out.problems = append(out.problems, fmt.Sprintf("w%d %s returned (%q, %d rows), non-prepared mode returns (%q, %d rows)", i+1, r.op, r.val, r.rows, wantV, wantN))
@@ -509,7 +525,7 @@ func run(c *core.Ctx) {
 	r := c.R
 	sc := genScenario(r)
 	special := c.Case % 16
-	if c.Case%64 == 0 {
+	if c.Case%32 == 0 {
 		special = 100
 	} else if special == 0 {
 		special = 15
@@ -523,6 +539,12 @@ func run(c *core.Ctx) {
 		sc.workers = [][]opKind{{"TXQA"}, {"QA"}}
 		if r.Bool() {
 			sc.workers = append(sc.workers, []opKind{core.Pick(r, []opKind{"QA", "TXQA", "QB"})})
+		}
+		if c.Case%128 != 0 {
+			// one worker alone: whatever its transaction prepares or reads (Row() included) has to get by
+			// with the connection the transaction holds. Nobody else is there to wait for.
+			sc.workers = [][]opKind{{core.Pick(r, []opKind{"TXROW", "TXQA", "TXEXEC", "TXROW"}), core.Pick(r, []opKind{"TXROW", "ROW", "QA", "TXEXEC"})}}
+			sc.closeEarly, sc.parkHooks, sc.holdBack = false, false, false
 		}
 	case 1:
 		// many goroutines, one text, one failing preparation
@@ -549,6 +571,14 @@ func run(c *core.Ctx) {
 		// each other - KF-C14-1 - which is not what this scenario is about)
 		sc.resets, sc.closeEarly, sc.failBudget, sc.badconn, sc.sessionLevel, sc.parkHooks = 0, false, 0, 1, r.Chance(1, 4), false
 		sc.holdBack = true
+	case 7:
+		// one caller's private failure (an argument too many) next to healthy users of the same text; nothing else
+		// happens to the cache: no Reset, no early Close, no injected failure
+		sc.workers = [][]opKind{{"QAERR", "QA"}, {"QA", "QA"}, {core.Pick(r, []opKind{"QA", "TXQA", "QAERR"})}}
+		if r.Bool() {
+			sc.workers = append(sc.workers, []opKind{"QA", "QAERR", "QA"})
+		}
+		sc.resets, sc.closeEarly, sc.failBudget, sc.badconn, sc.holdBack = 0, false, 0, 0, false
 	case 2:
 		// Reset while preparations are in flight
 		sc.workers = [][]opKind{{"QA", "QB"}, {"QA", "QB"}, {"QB", "QA"}}
@@ -619,6 +649,10 @@ func report(c *core.Ctx, sc scenario, out outcome) {
 				sig = "deadlock"
 				if sc.maxOpen == 1 {
 					sig = "deadlock-maxopen1"
+					if len(sc.workers) == 1 {
+						// not KF-C14-2, which needs a second worker preparing the same text outside a transaction
+						sig = "deadlock-maxopen1-single-worker"
+					}
 				}
 			case strings.Contains(p, "still open"):
 				sig = "leak"
